@@ -243,6 +243,48 @@ fn main()
             out.case(&format!("prop | feedback-continuation | {} qubits {} shots {} variant {} seed {}", nq, shots, if stab { "stabilizer" } else { "vector" }, variant, seed), &verdict);
         }
     }
+    // ZERO-SHOT PROBES (B): "a fresh execution starts clean whatever happened before" also when the new execution has 0
+    // shots: afterwards every view must be the view of the 0-shot run (as on a fresh object executing 0 shots), not of an
+    // earlier run, and the object counts as executed.  (No conditional gates here: 0 shots + conditional gate is a listed finding.)
+    for &stab in [false, true].iter()
+    {
+        for &prev in [0usize, 1, 7, 25].iter()
+        {
+            let build = || { let mut c = Circuit::new(2, 3); let _ = c.x(0); let _ = c.h(1); let _ = c.measure(0, 2); let _ = c.measure(1, 0); c };
+            let view = |c: &Circuit| -> String {
+                let cs = c.cstate().map(|a| format!("len{}:{}", a.len(), join(&a.to_vec()))).unwrap_or("none".to_string());
+                let hv = match c.histogram_vec() { Ok(v) => format!("{:?}", v), Err(e) => show_err(&e) };
+                let mut hs: Vec<(String, usize)> = match c.histogram_string() { Ok(m) => m.into_iter().collect(), Err(_) => vec![("err".to_string(), 0)] };
+                hs.sort();
+                format!("cstate={} hist_vec={} hist_string={:?}", cs, hv, hs) };
+            let run = |c: &mut Circuit, shots: usize, seed: u64| -> Option<q1tsim::error::Result<()>> {
+                let cc = std::panic::AssertUnwindSafe(c);
+                std::panic::catch_unwind(move || { let std::panic::AssertUnwindSafe(cc) = cc; let mut r = rand_hc::Hc128Rng::seed_from_u64(seed);
+                    let repr = if stab { QuStateRepr::stabilizer(2, shots) } else { QuStateRepr::vector(2, shots) };
+                    cc.execute_with(shots, &mut r, repr) }).ok() };
+            let mut obj = build();
+            let mut fresh = build();
+            let mut verdict = "same".to_string();
+            if prev > 0 { let _ = run(&mut obj, prev, 11); }
+            let a = run(&mut obj, 0, 12).map(|r| r.is_ok());
+            let b = run(&mut fresh, 0, 12).map(|r| r.is_ok());
+            if a != b { verdict = format!("differs outcome object={:?} fresh={:?}", a, b); }
+            else if a == Some(true)
+            {
+                let (va, vb) = (view(&obj), view(&fresh));
+                if va != vb { verdict = format!("differs views object[{}] fresh[{}]", va, vb); }
+                else
+                {
+                    // and a re-execution continues the 0-shot run
+                    let ra = { let cc = std::panic::AssertUnwindSafe(&mut obj); std::panic::catch_unwind(move || { let std::panic::AssertUnwindSafe(cc) = cc; let mut r = rand_hc::Hc128Rng::seed_from_u64(13); cc.reexecute_with_rng(&mut r).is_ok() }).ok() };
+                    let rb = { let cc = std::panic::AssertUnwindSafe(&mut fresh); std::panic::catch_unwind(move || { let std::panic::AssertUnwindSafe(cc) = cc; let mut r = rand_hc::Hc128Rng::seed_from_u64(13); cc.reexecute_with_rng(&mut r).is_ok() }).ok() };
+                    let (va, vb) = (view(&obj), view(&fresh));
+                    if ra != rb || va != vb { verdict = format!("differs after-reexecute object={:?}[{}] fresh={:?}[{}]", ra, va, rb, vb); }
+                }
+            }
+            out.case(&format!("prop | execute-fresh-zero-shots | {} previous-run-shots {}", if stab { "stabilizer" } else { "vector" }, prev), &verdict);
+        }
+    }
     // "asking for results or re-executing before any execution is an error" - also through the C interface
     {
         use q1tsim::ffi;
